@@ -3,7 +3,7 @@ import logging
 
 import numpy as np
 
-from mc import records
+from mc import api, records
 from mc.ref import estimator as est
 from mc.ref import windows as refwin
 
@@ -86,13 +86,13 @@ def bin_mismatch(res_fields, j, ref, tol, auto):
 
 
 def raw_fields(res):
-    d = res._data
+    d = api.raw(res)
     return {k: np.asarray(d[k]) for k in ("XX", "YY", "XY", "M2", "S12", "S2") if k in d}
 
 
 def plan_fields(obj):
     """Per-bin plan fields from a plan dict or a result."""
-    d = obj if isinstance(obj, dict) else obj._data
+    d = obj if isinstance(obj, dict) else api.raw(obj)
     out = {k: np.asarray(d[k]) for k in PLANF}
     out["D"] = [np.asarray(v, dtype=np.int64) for v in d["D"]]
     return out
